@@ -214,6 +214,16 @@ def eval_expr(e: ast.expr, env: dict[str, Any], oracle: Oracle | None = None) ->
         return [fn_(x) for x in eval_expr(e.args[1], env, oracle)]
     if isinstance(e, ast.Call) and isinstance(e.func, ast.Name) and e.func.id in ("all", "any") and len(e.args) == 1 and not e.keywords:
         return {"all": all, "any": any}[e.func.id](eval_expr(e.args[0], env, oracle))
+    if isinstance(e, ast.Call) and isinstance(e.func, ast.Attribute) and e.func.attr == "setdefault" and len(e.args) == 2 and not e.keywords:
+        try:
+            recv = eval_expr(e.func.value, env, oracle)
+        except AnalysisError:
+            recv = AnalysisError
+        if isinstance(recv, dict) and not isinstance(recv, Obj):
+            k_ = eval_expr(e.args[0], env, oracle)
+            if k_ not in recv:
+                recv[k_] = eval_expr(e.args[1], env, oracle)
+            return recv[k_]
     if isinstance(e, ast.Call) and isinstance(e.func, ast.Attribute) and e.func.attr == "get" and 1 <= len(e.args) <= 2 and not e.keywords:
         try:
             recv = eval_expr(e.func.value, env, oracle)
